@@ -60,6 +60,9 @@ from spyne.protocol.soap.mime import collapse_swa
 from spyne.server.http import HttpTransportContext
 
 
+MAX_HREF_CHAIN_LENGTH = 32
+
+
 def _from_soap(in_envelope_xml, xmlids=None, **kwargs):
     """Parses the xml string into the header and payload.
     """
@@ -120,16 +123,22 @@ def _parse_xml_string(xml_string, parser, charset=None):
 
 # see http://www.w3.org/TR/2000/NOTE-SOAP-20000508/
 # section 5.2.1 for an example of how the id and href attributes are used.
-def resolve_hrefs(element, xmlids):
+def resolve_hrefs(element, xmlids, _active=()):
     for e in element:
         if e.get('id'):
             continue # don't need to resolve this element
 
         elif e.get('href'):
-            resolved_element = xmlids[e.get('href').replace('#', '')]
+            href = e.get('href').replace('#', '')
+            if href in _active or len(_active) >= MAX_HREF_CHAIN_LENGTH:
+                raise Fault('Client.SoapError',
+                                 "The href %r is circular or nested too deeply."
+                                                                        % href)
+
+            resolved_element = xmlids.get(href)
             if resolved_element is None:
                 continue
-            resolve_hrefs(resolved_element, xmlids)
+            resolve_hrefs(resolved_element, xmlids, _active + (href,))
 
             # copies the attributes
             [e.set(k, v) for k, v in resolved_element.items()]
@@ -141,7 +150,7 @@ def resolve_hrefs(element, xmlids):
             e.text = resolved_element.text
 
         else:
-            resolve_hrefs(e, xmlids)
+            resolve_hrefs(e, xmlids, _active)
 
     return element
 
